@@ -12,6 +12,7 @@ CONSTANTS
   Bug = {}
   GenMode = "free"
   GenDepth = 24
+  HandoffEnds = {"a", "b"}
   ScriptIds = {0}
 INVARIANT EmitTrace
 CHECK_DEADLOCK FALSE
